@@ -142,6 +142,13 @@ inductive Act (E Es : Type) where
   | pubGet                                        -- the Get attempt: respond with the value, code Ok
   | respond (a : RespArg E Es) (c : Code)          -- `Self::respond(a, c, properties, client)`
   | pubTo (topic payload : Str) (c : Code) (cd : Option (List Nat))   -- `Publication::new(topic, payload)` + code (+ correlate)
+  | pubVal (topic path : Str) (cd : Option (List Nat))                  -- the JSON value of leaf `path` published with code Ok (recorded only if `publish` answered Ok)
+/-- how `iter_dump` classifies the result of publishing one leaf value -/
+inductive DumpErr where
+  | Absent        -- `Serialization(Traversal(Absent(_)))`: the leaf is absent at run time
+  | TooLarge      -- `InsufficientMemory` / `Serialization(Inner(_, BufferFull))`: the value exceeds the transmit buffer
+  | Other         -- anything else: `other.unwrap()` panics
+  deriving DecidableEq, Repr, Inhabited
 /-- `Multipart` with its node iterator as the leaf paths it still yields -/
 structure Pend where
   remaining : List Str
@@ -381,6 +388,95 @@ def generate(lib_rs):
                         "Unit", tb, "loopbody",
                         doc="one pass of the `while self.mqtt.client().can_publish(..)` loop of `iter_list` (`canPub`: the loop "
                             "condition; `.next`: go round again, `.ret`: the loop / function is left)")
+    # ---- iter_dump(): one pass of its loop
+    sig, text = M.find_fn(src, "iter_dump")
+    db = M.parse_block(text)
+    if not (db[0] == "block" and not db[1] and db[2] and db[2][0] == "while" and db[2][1] == CANPUB):
+        raise Unsupported("iter_dump: `while self.mqtt.client().can_publish(QoS::AtLeastOnce) { .. }` expected")
+    dbody = db[2][2]
+    ds, dtail = dbody[1], dbody[2]
+    CORR = ("expr", ("if", ("iflet", [("ppath", ["Some"], [("pbind", "cd")])],
+                            ("unary", "&", ("field", ("field", ("path", ["self"]), "pending"), "correlation_data"))),
+                     ("block", [("semi", ("assign", "=", ("path", ["response"]), ("mcall", ("path", ["response"]), "correlate", [("path", ["cd"])])))], None),
+                     None))
+    PUBLISH = ("mcall", ("mcall", ("field", ("path", ["self"]), "mqtt"), "client", []), "publish", [("path", ["response"])])
+    want = [
+        ("letelse", ("ppath", ["Some"], [("pbind", "path")]),
+         ("mcall", ("field", ("field", ("path", ["self"]), "pending"), "iter"), "next", []),
+         ("block", [("semi", ("mcall", ("mcall", ("field", ("path", ["self"]), "state"), "process_event", [("path", ["sm", "Events", "Complete"])]), "unwrap", [])),
+                    ("semi", ("break",))], None)),
+        ("let", ("ptuple", [("pbind", "path"), ("pbind", "node")]), ("mcall", ("path", ["path"]), "unwrap", [])),
+        None,   # debug_assert!(node.is_leaf())
+        ("let", ("pbind", "topic"), ("mcall", ("mcall", ("field", ("path", ["self"]), "prefix"), "try_into", []), "unwrap", [])),
+        ("semi", ("mcall", ("mcall", ("mcall", ("path", ["topic"]), "push_str", [("str", "/settings")]), "and_then",
+                            [("closure", [("pwild",)], ("mcall", ("path", ["topic"]), "push_str", [("unary", "&", ("path", ["path"]))]))]),
+                  "unwrap", [])),
+        ("let", ("pbind", "props"), ("array", [("mcall", ("path", ["ResponseCode", "Ok"]), "into", [])])),
+        ("let", ("pbind", "response"),
+         ("mcall", ("mcall", ("call", ("path", ["Publication", "new"]),
+                              [("unary", "&", ("path", ["topic"])),
+                               ("closure", [("pbind", "buf")], ("block", [], ("call", ("path", ["json", "get_by_key"]),
+                                                                              [("path", ["settings"]), ("unary", "&", ("path", ["path"])), ("path", ["buf"])])))]),
+                    "properties", [("unary", "&", ("path", ["props"]))]), "qos", [("path", ["QoS", "AtLeastOnce"])])),
+        CORR,
+    ]
+    if len(ds) != len(want) or any(w is not None and a != w for a, w in zip(ds, want)) or \
+            not (ds[2][0] == "semi" and ds[2][1][0] == "macro" and ds[2][1][1] == "debug_assert"):
+        raise Unsupported(f"iter_dump: loop body statements changed: {ds!r}")
+    P_ABS = ("ppath", ["Err"], [("ppath", ["minimq", "PubError", "Serialization"],
+                                 [("ppath", ["miniconf", "Error", "Traversal"], [("ppath", ["Traversal", "Absent"], [("pwild",)])])])])
+    P_MEM = ("ppath", ["Err"], [("ppath", ["minimq", "PubError", "Error"], [("ppath", ["minimq", "Error", "Minimq"], [
+        ("ppath", ["minimq", "MinimqError", "Protocol"], [("ppath", ["minimq", "ProtocolError", "Serialization"],
+                                                          [("ppath", ["minimq", "SerError", "InsufficientMemory"], None)])])])])])
+    P_FULL = ("ppath", ["Err"], [("ppath", ["minimq", "PubError", "Serialization"],
+                                  [("ppath", ["miniconf", "Error", "Inner"],
+                                    [("pwild",), ("ppath", ["serde_json_core", "ser", "Error", "BufferFull"], None)])])])
+    LARGE = ("block", [
+        ("let", ("pbind", "props"), ("array", [("mcall", ("path", ["ResponseCode", "Error"]), "into", [])])),
+        ("let", ("pbind", "response"),
+         ("mcall", ("mcall", ("call", ("path", ["Publication", "new"]),
+                              [("unary", "&", ("path", ["topic"])), ("mcall", ("str", "Serialized value too large"), "as_bytes", [])]),
+                    "properties", [("unary", "&", ("path", ["props"]))]), "qos", [("path", ["QoS", "AtLeastOnce"])])),
+        CORR, ("semi", ("mcall", PUBLISH, "unwrap", []))], None)
+    want_tail = ("match", PUBLISH, [([P_ABS], None, ("block", [], None)), ([P_MEM, P_FULL], None, LARGE),
+                                    ([("pbind", "other")], None, ("mcall", ("path", ["other"]), "unwrap", []))])
+    if dtail != want_tail:
+        raise Unsupported(f"iter_dump: the classification of the publish result changed: {dtail!r}")
+    # the same logic with the environment's classification of the publish result (`DumpErr`) in place of the patterns
+    tail2 = ("match", ("call", ("path", ["pub_dump"]), [("path", ["topic"]), ("path", ["path"])]),
+             [([("ppath", ["Err"], [("ppath", ["DumpErr", "Absent"], None)])], None, ("block", [], None)),
+              ([("ppath", ["Err"], [("ppath", ["DumpErr", "TooLarge"], None)])], None,
+               ("block", [("semi", ("call", ("path", ["publish_large"]), [("path", ["topic"])]))], None)),
+              ([("pbind", "other")], None, ("mcall", ("path", ["other"]), "unwrap", []))])
+    dinner_then = brk(("block", [("letelse", ds[0][1], ("call", ("path", ["iter_next"]), []), ds[0][3]),
+                                 ("let", ("pbind", "topic"), ("call", ("path", ["dump_topic"]), [("path", ["path"])]))], tail2))
+    dinner = ("block", [("expr", ("if", ("path", ["can_pub"]), dinner_then, ("block", [("semi", ("return", None))], None)))], None)
+    dctors = dict(uctors)
+    dctors["DumpErr::Absent"] = "DumpErr.Absent"
+    dctors["DumpErr::TooLarge"] = "DumpErr.TooLarge"
+    tb = Tables(self_type="Cl", ctors=dctors, fns={"dump_topic": ("dumpTopic pfx", "pure")}, methods={
+        ("OptUnit", "unwrap"): {"kind": "unwrap"},
+        ("DumpRes", "unwrap"): {"kind": "unwrap_result"},
+    }, consts={"can_pub": "canPub"}, vartypes={"state": "StateM", "path": "Str", "topic": "Str", "other": "DumpRes"},
+        structs={"Self": "(Cl E Es Pend X)"})
+    tb.effects = {
+        ("call", "iter_next"): {"fmt": "(match self.pending.remaining with | [] => (none, self) | p :: rest => "
+                                       "(some p, {{ self with pending := {{ self.pending with remaining := rest }} }}))", "pair": "self"},
+        ("call", "pub_dump"): {"fmt": "(ans, {{ self with acts := self.acts ++ (match ans with | .ok _ => [Act.pubVal {0} {1} self.pending.correlation_data] | .error _ => []) }})",
+                               "pair": "self", "ret": "DumpRes"},
+        ("call", "publish_large"): {"fmt": "((), {{ self with acts := self.acts ++ [Act.pubTo {0} tooLarge Code.Error self.pending.correlation_data] }})",
+                                    "pair": "self"},
+        ("mcall", "state", "process_event"): {"fmt": "(processEvent env self {0})", "pair": "self", "ret": "OptUnit"},
+    }
+    out += ["/-- `<prefix>/settings<path>` (the topic fits `MAX_TOPIC_LENGTH`: the `unwrap()`s of the source are not modelled) -/",
+            "def dumpTopic (pfx path : Str) : Str := pfx ++ \"/settings\".toList ++ path", "",
+            "def tooLarge : Str := \"Serialized value too large\".toList", ""]
+    lines = translate_fn(("block", [], ("loop", dinner)), "iter_dump_body",
+                         "{E Es X : Type} (env : Env E Es Pend) (pfx : Str) (canPub : Bool) (ans : Except DumpErr Unit) (self : Cl E Es Pend X)",
+                         "Unit", tb, "loopbody",
+                         doc="one pass of the loop of `iter_dump`; `ans`: how the publication of this leaf's value ended (`Ok`, or the "
+                             "class of the error as the source's patterns sort it)")
+    out += lines
     out.append("end MiniconfVerif.Gen.Mqtt")
     return "\n".join(out) + "\n"
 
